@@ -80,7 +80,10 @@ def concretise(b, rng):
                 dcores=rng.sample(range(1, 18), b["ncores"]), buf=buf, app=rng.choice((16, 30, 66, 255)),
                 datas=datas, other=other, order=order,
                 style="two" if len(order) == 1 and rng.random() < 0.5 else "map", how=rng.choice(("kw", "kw", "ctx")),
-                nn_id=rng.choice((0, 0, 1, 60, 124, 125, 126)))
+                nn_id=rng.choice((0, 0, 1, 60, 124, 125, 126)),
+                # (drawn last, so that the names above stay what they were): arguments left to their documented
+                # defaults / overriding an enclosing block; the shape of the application map
+                how2=rng.choice((None, None, "dflt", "over")), shape=rng.choice(("dict", "ordered", "appmap", "frozen")))
 
 
 def targets_of(cn, cores):
@@ -133,7 +136,8 @@ def replay(wd, b, cn, schedule=None):
         sim.late_miss, sim.applied = late_miss, []
         try:
             tr, _ = c09.one_call(sim, mc, wd, dict(app=cn["app"], wait=b["wait"], ntries=b["ntries"],
-                                                    usecount=b["usecount"], style=cn["style"], how=cn["how"],
+                                                    usecount=b["usecount"], style=cn["style"],
+                                                    how=cn.get("how2") or cn["how"], shape=cn.get("shape", "dict"),
                                                     bins=bins, miss=[], nn_id=cn["nn_id"],
                                                     label="tlc-simulated behaviour of LoadAppDesign"))
         finally:
